@@ -53,6 +53,16 @@ PROPS["C18"] = {
     "assumptions": [],
 }
 
+PROPS["C14"] = {
+    "units": ["ws_frame"],
+    "kani": [],
+    "technique": "Verus contracts on the extracted real ws::Parser::{parse_metadata, parse} and OpCode conversions against an RFC 6455 section 5.2 header oracle; header segmentation lemma over the contracts",
+    "level_text": "deductive proof, for all byte strings, roles and max_size values, that the frame parser decides exactly the RFC 6455 header (mask bit per role, reserved opcodes, 7/16/64-bit lengths), consumes nothing until a frame is complete, then consumes exactly idx+len bytes, unmasks the payload, rejects over-long control frames and never delivers more than max_size; decided headers are stable under extension of the input (segmentation lemma)",
+    "level_note": "assumes shim contracts for BytesMut, big-endian helpers (R14) and apply_mask == XOR with key[i mod 4]; one obligation (oversize frame refused before buffering) fails on the unchanged tree and is recorded as a known finding",
+    "not_decided": ["hash_key / handshake (sha1, base64 dependencies)", "Codec::decode continuation-flag automaton and Parser::write_message round trip: units under construction"],
+    "assumptions": ["Parser::parse precondition: the buffer length fits usize (type invariant of BytesMut)"],
+}
+
 _PENDING = "not claimed yet: contracts for this property are still under construction in this session"
 NOT_APPLICABLE = {("C%02d" % i): _PENDING for i in range(1, 20)}
 NOT_APPLICABLE["C06"] = "every clause is about instants (deadlines vs. arrival times, runtime timer ordering); no function contract expresses virtual time or scheduler ordering (DESIGN.md section 4 C06)"
